@@ -79,3 +79,22 @@ Example frag_example :
      | _ => False
      end.
 Proof. vm_compute. repeat split; reflexivity. Qed.
+
+(** ** Known finding D94: several track runs in one track fragment.
+    ISO/IEC 14496-12 8.8.8 allows any number of [trun] boxes in a [traf]; [TrafBox] has one slot and [TrafBox::read_box]
+    overwrites it for every [trun] child, so only the LAST run of a track fragment survives decoding and the samples of the
+    earlier runs are lost ([frag_lookup_sound] above is about track fragments with at most one run, which is all the
+    decoder can deliver).  Witness on the decoder model: a traf with two runs decodes to the traf holding the second. *)
+From MP4 Require BoxTraf.
+Definition d94_run1 : BoxTrun.trun :=
+  BoxTrun.mkTrun 0 (BoxTrun.trun_FLAG_DATA_OFFSET + BoxTrun.trun_FLAG_SAMPLE_SIZE) 2 (Some 100%Z) None [] [2; 2] [] [].
+Definition d94_run2 : BoxTrun.trun :=
+  BoxTrun.mkTrun 0 (BoxTrun.trun_FLAG_DATA_OFFSET + BoxTrun.trun_FLAG_SAMPLE_SIZE) 3 (Some 104%Z) None [] [3; 3; 3] [] [].
+Definition d94_traf_bytes : bytes :=
+  let body := wout (BoxTfhd.enc_tfhd (BoxTraf.traf_tfhd BoxTraf.traf_test))
+              ++ wout (BoxTrun.enc_trun d94_run1) ++ wout (BoxTrun.enc_trun d94_run2) in
+  be 4 (8 + lenN body) ++ be 4 0x74726166 ++ body.
+Example traf_keeps_last_trun :
+  fst (run (h <- read_header ;; BoxTraf.dec_traf_fuel 6 Dbg (snd h)) (stream_at d94_traf_bytes 0))
+  = Ok (BoxTraf.mkTraf (BoxTraf.traf_tfhd BoxTraf.traf_test) None (Some d94_run2)).
+Proof. vm_compute. reflexivity. Qed.
